@@ -194,7 +194,75 @@ impl RoundCase {
     }
 }
 
+/// Metamorphic relation that needs no model of the (intricate) calendar semantics: in a zone without transitions
+/// civil arithmetic and zoned arithmetic coincide, so rounding / totalling relative to a civil datetime must give
+/// what the same call gives relative to that datetime as a Zoned in UTC. The two run through different code paths
+/// (`relative_calendar`/`clamp_relative_span` have civil and zoned branches). Covers the day-clamping cases
+/// (reference on day 29-31) that the end-point oracle leaves without verdict.
+fn check_civil_vs_utc(cx: &mut Ctx, rel: &Rel, span: &MSpan, rc: Option<&RoundCase>, unit: usize) {
+    let Rel::Civil { c, as_date } = rel else { return };
+    if *as_date && c.nod != 0 {
+        return;
+    }
+    let Some(dt) = dt_of(*c) else { return };
+    let Ok(sp) = span.to_jiff() else { return };
+    let Ok(z) = dt.to_zoned(jiff::tz::TimeZone::UTC) else { return };
+    let case = || match rc {
+        Some(rc) => format!("round|{}|{}", rel.describe(), rc.encode()),
+        None => format!("total|{}|{}|{}", rel.describe(), span.encode(), unit),
+    };
+    cx.eval(1);
+    match rc {
+        Some(rc) => {
+            // (day increments > 1 in a result that also carries weeks: which grid the days are on is not defined the
+            // same way in the two branches - the same no-verdict rule as in the end-point oracle)
+            let eff_largest = rc.largest.unwrap_or(rc.span.largest().unwrap_or(0).max(rc.smallest));
+            if rc.smallest == arith::DAY && rc.inc > 1 && eff_largest >= arith::WEEK {
+                cx.count("civil_vs_utc_skipped_week_day_grid", 1);
+                return;
+            }
+            // (calendar units are rounded through an f64 progress fraction: remainders of nanoseconds against days or
+            // months are below its resolution and the two branches may lose them differently - same no-verdict rule as
+            // in the end-point oracle)
+            if rc.smallest >= arith::DAY && (rc.span.u[0] != 0 || rc.span.u[1] != 0 || c.nod % 1_000_000 != 0) {
+                cx.count("civil_vs_utc_skipped_below_f64_resolution", 1);
+                return;
+            }
+            // (half-even ties: a civil reference rounds the whole duration in days or smaller units, a zoned one the
+            // time of day within the last day / the days within the last week, so "even" refers to different quotients
+            // - by specification)
+            if rc.mode.idx() == 8 {
+                cx.count("civil_vs_utc_skipped_half_even_time", 1);
+                return;
+            }
+            let mk = || {
+                let mut o = SpanRound::new().smallest(unit_of(rc.smallest)).increment(rc.inc).mode(rc.mode.to_jiff());
+                if let Some(l) = rc.largest {
+                    o = o.largest(unit_of(l));
+                }
+                o
+            };
+            let r = guard(|| (sp.round(mk().relative(dt)).ok().map(|s| MSpan::from_jiff(&s)), sp.round(mk().relative(&z)).ok().map(|s| MSpan::from_jiff(&s))));
+            if let Ok((a, b)) = r {
+                // (a zoned reference has hours as its largest non-calendar unit and treats days as calendar days: same thing in UTC)
+                if a.is_some() && b.is_some() && a != b {
+                    cx.violation("Span::round/civil-reference-differs-from-the-same-reference-in-UTC", case, || format!("{:?}", b.map(|m| m.show())), || format!("{:?}", a.map(|m| m.show())));
+                }
+            }
+        }
+        None => {
+            let r = guard(|| (sp.total((unit_of(unit), dt)).ok(), sp.total((unit_of(unit), &z)).ok()));
+            if let Ok((Some(a), Some(b))) = r {
+                if (a - b).abs() > b.abs() * 1e-13 + 1e-12 {
+                    cx.violation("Span::total/civil-reference-differs-from-the-same-reference-in-UTC", case, || format!("{}", b), || format!("{}", a));
+                }
+            }
+        }
+    }
+}
+
 pub fn check_round(cx: &mut Ctx, rel: &Rel, rc: &RoundCase) {
+    check_civil_vs_utc(cx, rel, &rc.span, Some(rc), 0);
     let case = || format!("round|{}|{}", rel.describe(), rc.encode());
     let Ok(span) = rc.span.to_jiff() else { return };
     let zoned = match rel {
@@ -416,6 +484,7 @@ pub fn check_round(cx: &mut Ctx, rel: &Rel, rc: &RoundCase) {
 
 /// total(unit): whole units by greedy counting + the exact fraction of the next one.
 pub fn check_total(cx: &mut Ctx, rel: &Rel, span: &MSpan, unit: usize) {
+    check_civil_vs_utc(cx, rel, span, None, unit);
     let case = || format!("total|{}|{}|{}", rel.describe(), span.encode(), unit);
     let Ok(sp) = span.to_jiff() else { return };
     let zoned = match rel {
@@ -465,7 +534,7 @@ pub fn check_total(cx: &mut Ctx, rel: &Rel, span: &MSpan, unit: usize) {
         }
         return;
     }
-    if rel.day_of_month() >= 29 && (unit >= arith::MONTH || span.u[arith::MONTH] != 0 || span.u[arith::YEAR] != 0) {
+    if cx.opt("no_clamp_skip").is_none() && rel.day_of_month() >= 29 && (unit >= arith::MONTH || span.u[arith::MONTH] != 0 || span.u[arith::YEAR] != 0) {
         cx.count("total_skipped_day_clamping", 1);
         return;
     }
